@@ -2,7 +2,8 @@
 
 (A) distance rows through the real get_result_item (argsort + classify), in child interpreters under every NumPy CPU-dispatch
     setting this CPU allows: every row over {0,1/2,1} of length<=8 (10), every row over {1/4,3/4} of length 12 (17,18), every placement
-    of exactly two minima in a constant row for n in {17,24,33,64,100}; report_closest N in {1,2,3,n,n+5}.
+    of exactly two minima in a constant row for n in {17,24,33,64,100}; every row of length<=5 (6) over five values of which four are distinct
+    float32 numbers less than 1e-6 apart (a sort on rounded keys shows there); report_closest N in {1,2,3,n,n+5}.
 (B) a persisted synthetic database with identical and equidistant reference genomes, every query subset of a 5-k-mer universe,
     through query() and the CSV / JSON exporters, for OpenMP thread counts {1,16} x chunk sizes {1,2,3,1000} x N.
 Oracle: refmodel.ref_closest (sort by (distance, position)); entry 0 = closest_match; CSV closest.description = JSON closest_genomes[0].
@@ -41,7 +42,8 @@ def plan(tier, seed):
 	tasks = []
 	fams = [('tern', dict(maxlen=8 if tier == 'quick' else 10)),
 	        ('bin', dict(lens=[12] if tier == 'quick' else [12, 16, 17, 18])),
-	        ('twomin', dict(ns=[17, 24, 33, 64, 100]))]
+	        ('twomin', dict(ns=[17, 24, 33, 64, 100])),
+	        ('near', dict(maxlen=5 if tier == 'quick' else 6))]
 	for cpu in CPUS:
 		for fam, kw in fams:
 			nsh = 2 if tier == 'quick' else 6
@@ -65,6 +67,12 @@ def rows_of(fam, kw):
 	elif fam == 'bin':
 		for n in kw['lens']:
 			yield from itertools.product([0.25, 0.75], repeat=n)
+	elif fam == 'near':
+		# distinct float32 values closer together than any plausible rounding step (neighbouring floats, 1333/2000 vs 1335/2003, ...)
+		a = float(F32(0.6665))
+		vals = [a, float(np.nextafter(F32(a), F32(1))), float(F32(1335 / 2003)), float(np.nextafter(F32(1335 / 2003), F32(0))), float(F32(0.25))]
+		for n in range(2, kw['maxlen'] + 1):
+			yield from itertools.product(vals, repeat=n)
 	else:
 		for n in kw['ns']:
 			for i in range(n):
